@@ -17,7 +17,7 @@ for k in $(seq 0 $((N-1))); do
         prop=${id%%-*}
         P=seeded/$id/patch.diff; [ -f seeded/$id/patch.rebased.diff ] && P=seeded/$id/patch.rebased.diff
         if git -C /tmp/st/w$k apply /verif/$P 2>/dev/null; then
-          out=$(bin/simdvet check $prop --repo /tmp/st/w$k --verif /tmp/st/v$k 2>&1); rc=$?
+          out=$(${SIMDVET:-bin/simdvet} check $prop --repo /tmp/st/w$k --verif /tmp/st/v$k 2>&1); rc=$?
           git -C /tmp/st/w$k checkout -q -- . ; git -C /tmp/st/w$k clean -fdq
           if [ $rc -eq 1 ]; then echo "$id: DETECTED $(echo "$out" | grep -m1 'rule=' | cut -c1-160)"; else echo "$id: MISSED (rc=$rc)"; fi
         else echo "$id: PATCH-DOES-NOT-APPLY"; fi
